@@ -1011,9 +1011,42 @@ def r01_11(ctx):
                 dsl, dleaves = backward_slice(f, [la], through_calls=False)
                 if any(x[0] == "call" and callee_is(x[2], "as_u8_slice") for x in dleaves):
                     mapped = True
+        # combinator form: the Result goes through map_err(closure) before `?`, and the closure re-renders the error against
+        # the original text it captured
+        from ..analysis import upvar_parent_leaves
+        for bb, tt in f.calls():
+            if not callee_is(tt, "map_err") or not tt["args"] or op_local(tt["args"][0]) is None:
+                continue
+            a0 = op_local(tt["args"][0])
+            if res not in (backward_slice(f, [a0])[0] | {a0}):
+                continue
+            for g in prog.closures_of(f):
+                if not _closure_passed(f, tt, g):
+                    continue
+                for cb, ct in g.calls():
+                    for a2 in ct["args"]:
+                        la = op_local(a2)
+                        if la is None:
+                            continue
+                        for lf in backward_slice(g, [la], through_calls=False)[1]:
+                            if any(x[0] == "call" and callee_is(x[2], "as_u8_slice") for x in upvar_parent_leaves(prog, g, lf)):
+                                mapped = True
         ctx.ob("R01.11", f"deserialize_value:parse#{k}:error-position", mapped, f.loc(t["ln"]),
                "an error of the parse over the repaired text is re-rendered against the original input before it is returned" if mapped else
                "an error of the parse over the repaired text is returned as is: its offset / line / column count the bytes of the repaired text and can lie behind the end of the input")
+
+
+def _closure_passed(f, t, g):
+    """is closure body g the closure value handed to call t of f (an argument built from g's closure aggregate)"""
+    for a in t["args"]:
+        la = op_local(a)
+        if la is None:
+            continue
+        for x in backward_slice(f, [la])[0] | {la}:
+            for d in f.defs.get(x, []):
+                if d[0] == "stmt" and d[3]["rv"]["k"] == "agg" and d[3]["rv"].get("ak") == "closure" and d[3]["rv"].get("def") == g.id:
+                    return True
+    return False
 
 
 def r01_12(ctx):
